@@ -83,6 +83,7 @@ def build_head(spec, key, prev_key):
     if "raw" in spec:
         return bytes(spec["raw"])
     lines = [spec.get("status_line", "HTTP/1.1 %d %s" % (spec["status"], spec.get("reason", "X")))]
+    lines += list(spec.get("first", []))          # lines directly after the status line
     if spec.get("upgrade") is not None:
         lines.append("Upgrade:" + spec["upgrade"])
     if spec.get("connection") is not None:
@@ -308,7 +309,7 @@ def finding_for(ctx, clause, sc):
 # ---------------------------------------------------------------------------------------------
 # scenario families
 # ---------------------------------------------------------------------------------------------
-STATUSES = [101, 100, 200, 204, 301, 302, 303, 307, 308, 400, 404, 500]
+STATUSES = [101, 100, 200, 204, 301, 302, 303, 307, 308, 400, 404, 500, 102, 103, 300, 304, 305]
 UPGRADES = [None, " websocket", " WebSocket", " foo, websocket", "  websocket  ", " websocketx", "", " websocket, bar"]
 CONNS = [None, " Upgrade", " upgrade", " keep-alive, Upgrade", "  Upgrade  ", " Upgradex", "", " close"]
 ACCEPTS = ["right", "missing", "wrong", "prevkey", "otherkey", "truncated", "padded", "caseswapped", "empty", "utf8tail"]
@@ -350,6 +351,17 @@ def fam_heads(rng, tier):
         for st in STATUSES:
             chosen.append((st, " websocket", " Upgrade", "right", (None, None)))
         full = chosen
+    # an interim (1xx) or other non-101 head that carries everything a switch needs, followed on the same stream by a
+    # 101 head that lacks it: the first head is the response, the handshake has failed
+    bare = ["HTTP/1.1 101 Switching Protocols\r\n\r\n", "HTTP/1.1 101 Switching Protocols\r\nUpgrade: websocket\r\nConnection: Upgrade\r\n\r\n",
+            "HTTP/1.1 101 X\r\nSec-WebSocket-Protocol: a\r\n\r\n"]
+    for st in (100, 102, 103, 199, 200):
+        for b in bare:
+            for off, sel in ((None, None), (["a", "b"], " a")):
+                n += 1
+                out.append({"tid": "hd%d" % n, "chain": [{"status": st, "upgrade": " websocket", "connection": " Upgrade", "accept": "right",
+                                                          "subproto": sel, "body": b, "reason": "Early Hints"}],
+                            "limit": None, "offered": off, "api": "connect" if n % 2 else "create_connection", "timeout": 2})
     for st, up, co, ac, (off, sel) in full:
         spec = {"status": st, "upgrade": up, "connection": co, "accept": ac, "subproto": sel}
         if st in (301, 302, 303, 307, 308):
@@ -441,6 +453,17 @@ def fam_garbage_heads(rng, tier):
         for bl in bad_lines:
             add(spec={"status": st, "upgrade": " websocket", "connection": " Upgrade", "accept": "right", "extra": [bl],
                       "location": "ws://x.test/" if st == 302 else None})
+    # folded / white-space lines directly after the status line, header names and values http.cookies chokes on
+    for st in (101, 200, 302, 404):
+        for fl in (" folded", "\tfolded: x", " ", "\t", " Upgrade: websocket", "  : ", "\x0bX: y"):
+            add(spec={"status": st, "first": [fl], "upgrade": " websocket", "connection": " Upgrade", "accept": "right",
+                      "location": "ws://x.test/" if st == 302 else None})
+    for ck in ("a,b=c; domain=x", "a=b; domain=x.test", "=x; domain=y", "a b=c; Domain=x", "\"=1; domain=x", "a=b; domain=", "a=b; expires=never; domain=x",
+               "[]=1; domain=x", "a;b;c", ";", "a=b; domain=x; max-age=zz", "\xe9=1; domain=x", "k\x7f=v; domain=x", "a=b, c=d; domain=x; secure; httponly=1"):
+        for st in (101, 302, 404):
+            for twice in (False, True):
+                add(spec={"status": st, "upgrade": " websocket", "connection": " Upgrade", "accept": "right",
+                          "extra": ["Set-Cookie: " + ck] * (2 if twice else 1), "location": "ws://x.test/" if st == 302 else None})
     for ak in ("utf8tail", "latin1tail", "empty", "padded"):
         for sub in (None, " a"):
             add(spec={"status": 101, "upgrade": " websocket", "connection": " Upgrade", "accept": ak, "subproto": sub})
